@@ -17,6 +17,8 @@ enum At {
     Running,
     Acquire,
     Wake(u64),
+    /// the producer waits until this many bytes have been delivered to the consumer
+    Wait(usize),
     Finished,
 }
 
@@ -91,6 +93,9 @@ pub enum PCmd {
     Flush,
     Abort,
     Drop,
+    /// wait until everything accepted before the last successful flush has been delivered to
+    /// the consumer (no critical section of its own; a no-op after an abort)
+    Wait,
 }
 
 #[derive(Clone, Copy, Debug, PartialEq, Eq)]
@@ -137,6 +142,9 @@ pub struct RunResult {
     pub polls_after_writer_gone: usize,
     pub data_after_writer_gone: usize,
     pub panicked: bool,
+    /// the producer waited for the delivery of flushed bytes while the consumer was parked with
+    /// no wake outstanding and no spurious poll left
+    pub wait_deadlock: bool,
 }
 
 struct Shared {
@@ -185,6 +193,7 @@ pub fn run_schedule(prog: &Program, prefix: &[usize]) -> RunResult {
         let r = std::panic::catch_unwind(std::panic::AssertUnwindSafe(|| {
             let mut w_opt = Some(&mut w);
             let mut dropped = false;
+            let mut flushed = 0usize;
             for cmd in &cmds {
                 if dropped {
                     break;
@@ -206,12 +215,20 @@ pub fn run_schedule(prog: &Program, prefix: &[usize]) -> RunResult {
                         Err(_) => "err".into(),
                     },
                     PCmd::Flush => match w.flush() {
-                        Ok(()) => "ok".into(),
+                        Ok(()) => {
+                            flushed = sh.accepted.lock().unwrap().len();
+                            "ok".into()
+                        }
                         Err(_) => "err".into(),
                     },
                     PCmd::Abort => {
                         w.abort(Box::new(std::io::Error::other("aborted by harness")));
+                        flushed = 0;
                         "u".into()
+                    }
+                    PCmd::Wait => {
+                        block(At::Wait(flushed));
+                        continue;
                     }
                     PCmd::Drop => {
                         dropped = true;
@@ -317,6 +334,7 @@ pub fn run_schedule(prog: &Program, prefix: &[usize]) -> RunResult {
     let mut producer_done_at_poll: Option<usize> = None;
     let mut consumer_terminal: Option<String> = None;
     let mut parked_forever = false;
+    let mut wait_deadlock = false;
     let mut step_no = 0usize;
     loop {
         // wait until both threads are blocked or finished
@@ -330,7 +348,13 @@ pub fn run_schedule(prog: &Program, prefix: &[usize]) -> RunResult {
         if at[0] == At::Finished && producer_done_at_poll.is_none() {
             producer_done_at_poll = Some(polls_seen);
         }
-        let p_enabled = matches!(at[0], At::Acquire | At::Wake(_));
+        let delivered_now: usize =
+            shared.polls.lock().unwrap().iter().map(|(_, _, d)| d.len()).sum();
+        let p_enabled = match at[0] {
+            At::Acquire | At::Wake(_) => true,
+            At::Wait(target) => wait_deadlock || delivered_now >= target,
+            _ => false,
+        };
         let c_blocked = matches!(at[1], At::Acquire);
         // the consumer only runs when it is not parked, was woken, or polls spuriously
         let c_is_poll = c_blocked; // every consumer block point is a poll or the final drop
@@ -344,6 +368,11 @@ pub fn run_schedule(prog: &Program, prefix: &[usize]) -> RunResult {
             options.push(1usize);
         }
         if options.is_empty() {
+            if c_blocked && matches!(at[0], At::Wait(_)) {
+                // flushed bytes are queued, the consumer sleeps and nothing will wake it
+                wait_deadlock = true;
+                continue;
+            }
             if c_blocked && at[0] == At::Finished {
                 // consumer parked, nobody will ever wake it
                 parked_forever = true;
@@ -447,6 +476,7 @@ pub fn run_schedule(prog: &Program, prefix: &[usize]) -> RunResult {
         polls_after_writer_gone: polls_after,
         data_after_writer_gone: data_after,
         panicked,
+        wait_deadlock,
     }
 }
 
@@ -489,13 +519,18 @@ fn gz_model_prog(prog: &Program) -> Vec<PCmd> {
                 out.push(PCmd::Drop);
             }
             PCmd::Abort => out.push(PCmd::Abort),
+            PCmd::Wait => {}
         }
     }
     out
 }
 
 pub fn sched_line(prog: &Program, r: &RunResult) -> String {
-    let model_prog = if prog.gz_level > 0 { gz_model_prog(prog) } else { prog.prod.clone() };
+    // `Wait` has no critical section: the model program is the program without it
+    let model_prog: Vec<PCmd> = if prog.gz_level > 0 { gz_model_prog(prog) } else { prog.prod.clone() }
+        .into_iter()
+        .filter(|c| *c != PCmd::Wait)
+        .collect();
     let prog_s = model_prog
         .iter()
         .map(|c| match c {
@@ -503,6 +538,7 @@ pub fn sched_line(prog: &Program, r: &RunResult) -> String {
             PCmd::Flush => "F".into(),
             PCmd::Abort => "A".into(),
             PCmd::Drop => "D".into(),
+            PCmd::Wait => unreachable!(),
         })
         .collect::<Vec<_>>()
         .join(";");
@@ -556,6 +592,9 @@ pub fn pred_c10(prog: &Program, r: &RunResult) -> String {
     }
     if r.consumer_parked_forever {
         return "FAIL:consumer parked with the termination pending and no wake outstanding (lost wakeup)".into();
+    }
+    if r.wait_deadlock {
+        return "FAIL:consumer parked with flushed chunks pending and no wake outstanding while the producer waits for their delivery".into();
     }
     let ends_with_drop = prog.prod.last() == Some(&PCmd::Drop);
     let aborted = prog.prod.contains(&PCmd::Abort);
